@@ -52,7 +52,8 @@ def build_harness(workdir):
     open(os.path.join(hdir, "go.mod"), "w").write(gomod)
     shutil.copy(os.path.join(REPO, "go.sum"), os.path.join(hdir, "go.sum"))
     out = os.path.join(workdir, "harness")
-    sh(["go", "build", "-tags", "verif", "-o", out, "."], cwd=hdir, env=GOENV, timeout=600)
+    cover = ["-cover", "-coverpkg=./...,github.com/pion/rtp/..."] if os.environ.get("VERIF_COVER") else []   # selftest/coverage.sh: which library code the harness reaches
+    sh(["go", "build", "-tags", "verif"] + cover + ["-o", out, "."], cwd=hdir, env=GOENV, timeout=600)
     return out
 
 
